@@ -223,8 +223,6 @@ def c19_nontrivial(case, obs):
     keys = {e[0] for e in log}
     if len(keys) >= 2:
         return True
-    for e in log:
-        pass
     return bool(log) and any(a[3] > 0 for a in obs.get("arr", []) if len(a) > 3)
 
 
